@@ -230,6 +230,17 @@ def judge_error(e, r, case):
     case['_class'] = 'crash:' + common.E_NAME.get(code, str(code))
     if e['family'] in LISTED:
         return 'undeclared exception %s' % (r[2],)
+    if e['name'] == 'baldwin':
+        # C08_shape_baldwin: on a well-formed profile Baldwin always answers (the registry's ranked profiles are well-formed)
+        return 'Baldwin raises %s although it has an answer for every well-formed profile' % (r[2],)
+    if e['name'] in ('benham', 'tideman_alt'):
+        # C08_shape_benham / C08_shape_tideman(_outcomes): with a pairwise contest (these profiles have no shared ranks: two
+        # candidates suffice) the only outcome besides an answer is NotImplementedError - and, for TidemanAlternative with
+        # n_seats >= 2, the TypeError of the unimplemented further tiers (known finding C08-tideman-multiseat).  A single
+        # candidate makes both raise IndexError (known finding C05-hybrid-empty-pairwise, property C05): not judged here.
+        # Benham is a single-winner rule by construction (assert n_seats == 1): only one-seat calls are judged.
+        if len(evalreg.candidates_of(e['vtype'], case['profile'])) >= 2 and (e['name'] == 'tideman_alt' or case['n'] == 1):
+            return '%s raises %s on a profile with a pairwise contest' % (e['name'], r[2])
     return None        # other families: the declared-refusal clause does not name them (counted in the distribution)
 
 
@@ -276,6 +287,8 @@ def known_class(c, io, mo):
         return 'C08-star-short'
     if ev.startswith('lr_') and cls in ('crash:ZERODIV', 'nonpositive') and lr_capbranch(c):
         return 'C08-lr-capbranch'
+    if ev == 'tideman_alt' and cls == 'crash:TYPE' and c.get('n', 1) >= 2 and len(evalreg.candidates_of('ranked', c['profile'])) >= 2:
+        return 'C08-tideman-multiseat'
     return None
 
 
